@@ -318,7 +318,7 @@ class VectorSpline2D(BaseGridder):
         """
         check_is_fitted(self, ["force_"])
         force_east, force_north = self.force_coords
-        east, north = n_1d_arrays(coordinates, n=2)
+        east, north = n_1d_arrays(np.broadcast_arrays(*coordinates[:2]), n=2)
         cast = np.broadcast(*coordinates[:2])
         npoints = cast.size
         components = (
